@@ -99,6 +99,23 @@ class Exec:
     def gs(self, labels):
         return [self.g(x) for x in labels]
 
+    @staticmethod
+    def as_kind(seq, kind):
+        """The same sequence handed over as another kind of iterable."""
+        if kind in (None, "list"):
+            return seq
+        if kind == "tuple":
+            return tuple(seq)
+        if kind == "iter":
+            return iter(seq)
+        if kind == "gen":
+            return (x for x in seq)
+        if kind == "dictkeys":
+            return dict.fromkeys(seq).keys()
+        if kind == "reversed2":
+            return reversed(list(reversed(seq)))
+        return seq
+
     def norm(self, val):
         w = self.w
         if val is None or isinstance(val, (bool, int, float, str)):
@@ -136,9 +153,9 @@ class Exec:
         cls = C.VERTEX_CLASSES[op.get("cls", "Vertex")]
         kw = {}
         if op.get("links") is not None:
-            kw["links"] = self.gs(op["links"])
+            kw["links"] = self.as_kind(self.gs(op["links"]), op.get("as"))
         if op.get("universes") is not None:
-            kw["universes"] = self.gs(op["universes"])
+            kw["universes"] = self.as_kind(self.gs(op["universes"]), op.get("as"))
         attrs = {"sim_tag": op.get("tag", 0)}
         attrs.update(op.get("attrs") or {})
         v = cls(attributes=attrs, **kw)
@@ -149,7 +166,7 @@ class Exec:
         cls = C.UNIVERSE_CLASSES[op.get("cls", "Universe")]
         kw = {}
         if op.get("vertices") is not None:
-            kw["vertices"] = self.gs(op["vertices"])
+            kw["vertices"] = self.as_kind(self.gs(op["vertices"]), op.get("as"))
         if op.get("laws") is not None:
             kw["laws"] = self.g(op["laws"])
         u = cls(attributes={"sim_tag": op.get("tag", 0)}, **kw)
@@ -169,7 +186,7 @@ class Exec:
         return e
 
     def op_mk_multi(self, op):
-        e = C.MultiLink(vertices=self.gs(op["ends"]))
+        e = C.MultiLink(vertices=self.as_kind(self.gs(op["ends"]), op.get("as")))
         self.w.add(op["new"], e)
         return e
 
@@ -265,7 +282,7 @@ class Exec:
         if "unk" in op:
             kw["unknown_handling"] = UNKS[op["unk"]]
         if op.get("ff") is not None:
-            kw["filterfunc"] = C.NB_FILTERS[op["ff"]]
+            kw["filterfunc"] = C.nb_filter(op["ff"])
         return list(helpers.neighbors(self.g(op["v"]), **kw))
 
     def op_find_links(self, op):
@@ -285,7 +302,7 @@ class Exec:
         if "unk" in op:
             kw["unknown_handling"] = UNKS[op["unk"]]
         if op.get("ffv") is not None:
-            kw["ff_via"] = C.NB_FILTERS[op["ffv"]]
+            kw["ff_via"] = C.nb_filter(op["ffv"])
         if op.get("ffr") is not None:
             kw["ff_result"] = C.RESULT_FILTERS[op["ffr"]]
         return kw
